@@ -867,6 +867,10 @@ def rule_delivery_gate(ctx):
 
 
 def run(ctx):
+    # what the application configures is what the connection uses: options handed to setProtocolOptions reach the factory attribute of their name
+    from .common import rule_option_setters
+    rule_option_setters(ctx, "C02.11-configured-judging-options-reach-the-factory", [('WebSocketServerFactory', 'utf8validateIncoming', 'bool'), ('WebSocketServerFactory', 'requireMaskedClientFrames', 'bool'), ('WebSocketServerFactory', 'failByDrop', 'bool'), ('WebSocketClientFactory', 'utf8validateIncoming', 'bool'), ('WebSocketClientFactory', 'acceptMaskedServerFrames', 'bool'), ('WebSocketClientFactory', 'failByDrop', 'bool')],
+                        "incoming streams are then judged under another policy than the configured one")
     rule_frame_end(ctx)
     rule_header_cascade(ctx)
     rule_close_payload(ctx)
